@@ -414,6 +414,8 @@ async fn run_async(body: Body, rec: Arc<Rec>, op: OpId, st: Arc<ObjState>, name:
     }
     if let Some(g) = &body.gate {
         g.clone().await;
+        // a scheduling point after the resumption, still inside the operation
+        vthread::yield_now();
         // the operation is still exclusive after the await
         if st.occupancy() != 1 {
             rt::violation(format!("OVERLAP {} resumed on object {} with occupancy {}", name, st.id, st.occupancy()));
@@ -758,7 +760,12 @@ impl FdHandle {
         let _ = block_on(f);
     }
     /// polls `k` times with a waker that only counts, then drops the future
-    pub fn poll_then_drop(mut self, k: usize) {
+    pub fn poll_then_drop(self, k: usize) {
+        self.poll_then(k, || ())
+    }
+
+    /// polls `k` times, runs `between`, opens a scheduling point, then drops the future
+    pub fn poll_then(mut self, k: usize, between: impl FnOnce()) {
         let mut f = Box::pin(self.fut.take().unwrap());
         let (w, _c) = counting_waker();
         let mut cx = Context::from_waker(&w);
@@ -769,6 +776,8 @@ impl FdHandle {
             }
             vthread::yield_now();
         }
+        between();
+        vthread::yield_now();
         drop(f);
     }
     pub fn take(mut self) -> scheduler::SchedulerFuture<u64> {
